@@ -151,6 +151,17 @@ func parseNumber(number string) (LNumber, error) {
 	}
 	if len(s) > 2 && s[0] == '0' && (s[1] == 'x' || s[1] == 'X') {
 		v, err := strconv.ParseUint(s[2:], 16, 64) // explicit base: no sign, no '_'
+		if errors.Is(err, strconv.ErrRange) {
+			// 2^64 and above: the nearest float64, as strtod does (hexadecimal float syntax with exponent 0)
+			f, ferr := strconv.ParseFloat("0x"+s[2:]+"p0", LNumberBit)
+			if ferr != nil && !errors.Is(ferr, strconv.ErrRange) {
+				return LNumber(0), ferr
+			}
+			if neg {
+				f = -f
+			}
+			return LNumber(f), nil
+		}
 		if err != nil {
 			return LNumber(0), err
 		}
